@@ -139,9 +139,11 @@ class Models:
     def __init__(self):
         self.ext_call = {}
         self.methods = {}
-        from . import models_np, models_py
+        from . import models_np, models_py, models_io, models_xr
         models_py.register(self)
         models_np.register(self)
+        models_io.register(self)
+        models_xr.register(self)
 
     # -------------------------------------------------------------------------------------------
     # imports
@@ -155,6 +157,8 @@ class Models:
             return ExtRef('collections.OrderedDict')
         if modname == '__future__':
             return None
+        if (modname, name) == ('xarray.core.indexing', 'remap_label_indexers'):
+            raise AbsRaise(ExcVal('ImportError', ('remap_label_indexers was removed from xarray',)), node)
         return ExtRef(f'{modname}.{name}')
 
     def builtin(self, interp, name):
@@ -283,6 +287,9 @@ class Models:
             return dv.default
         return dv
 
+    def noop_callable(self):
+        return PyCallable(lambda it, a, k, n: None, 'noop')
+
     def is_dict_subclass(self, cls):
         return any(isinstance(b, ExtRef) and b.path in ('builtins.dict', 'builtins.object') for b in cls.bases) or not cls.bases
 
@@ -313,7 +320,7 @@ EXC_NAMES = {
     'ArithmeticError', 'Exception', 'BaseException', 'OverflowError', 'StopIteration', 'OSError',
     'FileNotFoundError', 'DeprecationWarning', 'Warning', 'NameError', 'KeyboardInterrupt',
 }
-BUILTIN_TYPES = {'list', 'tuple', 'dict', 'str', 'int', 'float', 'bool', 'set', 'object', 'type', 'bytes',
+BUILTIN_TYPES = {'slice', 'list', 'tuple', 'dict', 'str', 'int', 'float', 'bool', 'set', 'object', 'type', 'bytes',
                  'frozenset', 'property', 'staticmethod', 'classmethod', 'callable', 'any', 'all'}
 
 
